@@ -85,6 +85,26 @@ fn replay(prop: &str, path: &str) -> i32 {
             return if bad > 0 { 1 } else { 0 };
         }
     }
+    // witnesses that carry a choice tape: regenerate the case from the tape and run the oracle on the current tree
+    if let Some(tape) = v["witness"]["tape"].as_array() {
+        let tape: Vec<u32> = tape.iter().filter_map(|x| x.as_u64()).map(|x| x as u32).collect();
+        let prefix = v["signature"].as_str().unwrap_or("").split('|').nth(1).unwrap_or("").to_string();
+        let params = v["witness"]["params"].clone();
+        pdfmon::panicmon::install();
+        let r = match prop {
+            "C02" => pdfmon::props::c02::replay(&prefix, &tape, &params),
+            "C03" => pdfmon::props::c03::replay(&prefix, &tape, &params),
+            "C04" => pdfmon::props::c04::replay(&prefix, &tape, &params),
+            "C09" => pdfmon::props::c09::replay(&prefix, &tape, &params),
+            "C11" => pdfmon::props::c11::replay(&prefix, &tape, &params),
+            _ => None,
+        };
+        match r {
+            Some(Some((class, detail))) => { println!("replay   : the stored case still fails on this tree: {} — {}", class, detail); return 1; }
+            Some(None) => { println!("replay   : the stored case passes on this tree"); return 0; }
+            None => {}
+        }
+    }
     println!("to regenerate: VERIF_SEED={} ./check {} {}", v["seed"], prop, v["tier"].as_str().unwrap_or("quick").to_lowercase());
     0
 }
